@@ -6,7 +6,7 @@ from vlib import rat, unrat, exc_tag
 from pdb2sql import pdb2sql
 
 ID = 'C01'
-LEVEL = 'translation_validation'   # raised to 'proof' once the central theorems of Props/ exist
+LEVEL = 'proof'
 CLUSTER = 'A'
 GEN_UNITS = ['_format_pdb_linelength', '_get_chainID', '_get_element', 'record_loop']
 RULE = ('ATOM lines built field by field: every field independently widest / narrowest / typical / blank-if-optional; atom names of 1-4 '
